@@ -3,7 +3,7 @@ import ast
 import re
 
 from ..pymodel import AnalysisError, FuncInfo
-from ..astutil import (canon_src, src, is_name, is_const, call_name, walk_no_nested, strip_docstring, calls_in,
+from ..astutil import (expand_names, canon_src, src, is_name, is_const, call_name, walk_no_nested, strip_docstring, calls_in,
                        assignments_to, enclosing_stmt)
 from ..cmodel import S, strip, unparen
 
@@ -303,7 +303,7 @@ def rules(ctx):
                                         ('anneal_puso', 'c_anneal_puso', 'anneal_puso', 'single_anneal_puso')):
         fn = P.func('_anneal.%s' % pyname)
         call = [c for c in calls_in(fn.node) if is_name(c.func, wname)][0]
-        last = call.args[-1]
+        last = expand_names(fn.node, call.args[-1])
         ok = canon_src(last) == '-1 if seed is None else seed'
         ctx.inst('R12.2', fn, last, ok, "seed (None -> -1) is the last argument" if ok else
                  "the last argument of %s is `%s`, not `seed if seed is not None else -1`" % (wname, src(last)))
